@@ -206,6 +206,15 @@ def mutations(tree, tags=(), enum_nonmember=None):
                         for alt in ONE_PER_KIND[:3] + [vv]:
                             out.append(('bothspell', path, replace(tree, path, ('m', node[1], node[2][:i] + ((dk2, alt),) + node[2][i:]))))
                             out.append(('bothspell', path, replace(tree, path, ('m', node[1], node[2][:i + 1] + ((dk2, alt),) + node[2][i + 1:]))))
+                        if kk[2].count('_') >= 2:
+                            # TWO partly dashed spellings of the key instead of the key itself, one with the value and one with
+                            # a value of another kind, in both orders (neither is the exact name)
+                            m1 = S(kk[1], kk[2].replace('_', '-', 1))
+                            m2 = S(kk[1], kk[2][::-1].replace('_', '-', 1)[::-1])
+                            for alt in ONE_PER_KIND[:3]:
+                                if alt != vv:
+                                    for pair in (((m1, vv), (m2, alt)), ((m2, alt), (m1, vv)), ((m1, alt), (m2, vv)), ((m2, vv), (m1, alt))):
+                                        out.append(('twomixed', path, replace(tree, path, ('m', node[1], node[2][:i] + pair + node[2][i + 1:]))))
                         # dashed spelling of the key together with a value of another kind
                         dk = S(kk[1], kk[2].replace('_', '-'))
                         for alt in ONE_PER_KIND + [Q([])]:
